@@ -125,6 +125,11 @@ pub fn run(p: &Params) -> Report {
                 continue;
             }
         };
+        // a message whose own bytes contain a frame marker (payload of a file transfer carrying a DLT file, ids):
+        // C02 has no "no embedded marker" precondition for the message level round trip
+        if let Some(rm) = c.msgs.get(rng.usize_below(c.msgs.len().max(1))) {
+            embedded_marker_case(&mut rep, &mut rng, rm, &c);
+        }
         // note: if the reader lost messages that is C01's business; we take what was parsed
         let mut export = Vec::new();
         let mut ok = true;
@@ -232,6 +237,62 @@ fn run_convert(bin: &str, input: &std::path::Path, output: &std::path::Path) -> 
         .ok()?;
     let out = child.wait_with_output().ok()?;
     Some((out.status.success(), String::from_utf8_lossy(&out.stderr).chars().take(400).collect()))
+}
+
+/// one message of the stream with a marker (DLT\x01 / DLS\x01) written into its payload or ids: obtain it by parsing it
+/// alone (storage framing), then the per message oracle
+fn embedded_marker_case(rep: &mut Report, rng: &mut Rng, rm: &RefMsg, c: &StreamCase) {
+    let mut m = rm.clone();
+    m.serial = false;
+    let marker: [u8; 4] = if rng.chance(2, 3) { *b"DLT\x01" } else { *b"DLS\x01" };
+    let place = rng.below(8);
+    let mut placed = "payload";
+    if place == 0 && m.ext.is_some() {
+        m.ext.as_mut().unwrap().apid = marker;
+        placed = "apid";
+    } else if place == 1 && m.ext.is_some() {
+        m.ext.as_mut().unwrap().ctid = marker;
+        placed = "ctid";
+    } else if place == 2 && m.std_ecu.is_some() {
+        m.std_ecu = Some(marker);
+        placed = "ecu";
+    } else if m.payload.len() >= 4 {
+        let at = match rng.below(4) {
+            0 => 0,
+            1 => m.payload.len() - 4,
+            _ => rng.usize_below(m.payload.len() - 3),
+        };
+        m.payload[at..at + 4].copy_from_slice(&marker);
+    } else {
+        m.payload = marker.to_vec();
+    }
+    let bytes = m.encode();
+    // obtained from a well-formed stream: the message is followed by the next message of the stream
+    let mut stream = bytes.clone();
+    let mut follower = rm.clone();
+    follower.serial = false;
+    follower.encode_into(&mut stream, None);
+    let parsed = match crate::guard::catch(|| parse_dlt_with_storage_header(7, &stream)) {
+        Ok(Ok((consumed, pm))) if consumed == bytes.len() => pm,
+        Ok(_) => {
+            // the parser of the *input* side does not hand this message out (framing is C01's/C04's business)
+            rep.inc("embedded_marker_not_obtained");
+            return;
+        }
+        Err(pi) => {
+            rep.violation(&pi.class(), format!("panic at {}:{} {}", pi.file, pi.line, pi.msg), json!({"kind":"c02-embedded","bytes_hex": hex(&bytes)}));
+            return;
+        }
+    };
+    rep.inc("embedded_marker_msgs");
+    rep.inc(&format!("embedded_marker_in_{}", placed));
+    let r = match crate::guard::catch(|| check_msg(&parsed)) {
+        Ok(r) => r,
+        Err(pi) => Err((pi.class(), format!("panic at {}:{} {}", pi.file, pi.line, pi.msg))),
+    };
+    if let Err((class, detail)) = r {
+        rep.violation(&format!("embedded-marker:{}", class), format!("message with {:?} in its {}: {}", String::from_utf8_lossy(&marker[..3]), placed, detail), json!({"kind":"c02-embedded","bytes_hex": hex(&bytes), "stream": crate::c01::case_replay(c, 0, "cursor")}));
+    }
 }
 
 /// export through the real binary: file -> a.dlt -> b.dlt; a == expected export (to_write of every parsed message), b == a
